@@ -66,7 +66,8 @@ def install(registry_module):
     memo: dict = {}
     reg = registry_module._registry
     for name in list(reg):
-        reg[name] = wrap(reg[name], memo)
+        if not isinstance(reg[name], (WDict, WList)):  # idempotent: registries loaded lazily are wrapped later
+            reg[name] = wrap(reg[name], memo)
     for _orig, wrapped in memo.values():
         _REGISTRY_IDS.add(id(wrapped))
     return len(memo)
